@@ -2,7 +2,7 @@
 # Build the replay binaries once (offline). Proof steps need no build.
 set -e
 cd "$(dirname "$0")"
-export CARGO_NET_OFFLINE=true CARGO_TARGET_DIR="$PWD/.cache/target"
+export CARGO_NET_OFFLINE=true CARGO_TARGET_DIR="$PWD/.cache/target" RUSTFLAGS="--cfg p2panda_p2panda_verif"
 for c in replay/*/Cargo.toml; do
   d=$(dirname "$c")
   cp /repo/Cargo.lock "$d/Cargo.lock" 2>/dev/null || true
